@@ -99,6 +99,14 @@ class Model:
 
                     def get_work_order_cost(self, tag):
                         return self._wo[2]
+
+                    damage = 0
+                    _wear = d.get('wear', 0)
+
+                    def end_work(self, tag):
+                        super().end_work(tag)
+                        if self._wear:
+                            self.damage = 0       # the repair
                 o = WP(name, ups, cycle_time=d['cyc'] * TICK, resources_for_processing=dict(req) if req else None)
             elif k == 'buffer':
                 cap = None if d.get('cap', INF) == INF else d['cap']
@@ -139,7 +147,7 @@ class Model:
                     and not any(kinds[u] == 'ginput' for u in d['ups']):
                 self.dev[d['id']].set_upstream([self.dev[u] for u in d['ups']])
         self.maint = None
-        if any(c.get('call') == 'workorder' for c in cfg.get('script') or []):
+        if any(c.get('call') == 'workorder' for c in cfg.get('script') or []) or any(d.get('thr') for d in cfg['devs']):
             c = cfg.get('maintcap', INF)
             self.maint = Maintainer('mt', capacity=float('inf') if c == INF else c)
             self.by_asset[self.maint.id] = -1000
@@ -153,6 +161,45 @@ class Model:
                 a.register_object(self.dev[t], lambda sch, obj, time, st: setattr(obj, 'block_input', st == 'off'))
             self.scheds.append(a)
             self.by_asset[a.id] = -2000 - (i + 1)
+
+        # sensors and the condition-monitoring system: created last (initialised after everything else)
+        from simprocesd.model.sensors import OutputPartSensor, PeriodicSensor, AttributeProbe
+        from simprocesd.model.cms import Cms
+        self.sensors = {}
+        model = self
+
+        class FloorCms(Cms):
+            """requests a work order (tag x) for the machine when a reading reaches its threshold"""
+
+            def on_sense(self, sensor, time, data):
+                did, which = sensor._vdev, sensor._vwhich
+                tr.occ_sense('cms', did, which, data, time, None)
+                thr = model.cfg['devs'][did - 1].get('thr', 0)
+                if thr and data[0] >= thr:
+                    self.maintainer.create_work_order(model.dev[did], 'x')
+        made = []
+        for d in cfg['devs']:
+            if d['kind'] != 'processor':
+                continue
+            cap = float('inf') if d.get('scap', INF) == INF else d['scap']
+            if d.get('sint', -1) >= 0:
+                s = OutputPartSensor(self.dev[d['id']], [AttributeProbe('quality', None)], sensing_interval=d['sint'],
+                                     name='os%d' % d['id'], data_capacity=cap)
+                made.append((s, d['id'], 0))
+            if d.get('pint', 0) > 0:
+                s = PeriodicSensor(d['pint'] * TICK, [AttributeProbe('damage', self.dev[d['id']])], name='ps%d' % d['id'],
+                                   data_capacity=cap)
+                made.append((s, d['id'], 1))
+        self.cms = FloorCms(self.maint, 'cms') if made else None
+        for s, did, which in made:
+            s._vdev, s._vwhich = did, which
+            self.sensors[(did, which)] = s
+            self.by_asset[s.id] = (-3000 if which == 0 else -4000) - did
+            # the tracer's own on-sense callback is registered first, the monitoring system second
+            s.add_on_sense_callback(lambda sensor, time, data, did=did, which=which: tr.occ_sense('sense', did, which, data, time, sensor))
+            self.cms.add_sensor(s)
+        if self.cms is not None:
+            self.by_asset[self.cms.id] = -5000
 
     def _callbacks(self, o, d):
         """Public callbacks: the tracer's own observation of occurrences, plus the configuration's
@@ -187,6 +234,10 @@ class Model:
                 elif d.get('qinc'):
                     for lf in leaves(part):
                         lf.quality += 1
+                if d.get('wear'):
+                    m.damage += d['wear']           # the machine wears; the part's quality shows it
+                    for lf in leaves(part):
+                        lf.quality = m.damage
                 if d.get('foff'):
                     m.offset_next_cycle_time(d['foff'] * TICK)
                 tr.occ('prod', d['id'], part, m)
